@@ -48,6 +48,10 @@ class APLItem:
             binascii.unhexlify(self.address)
             self.prefix = dns.rdata.Rdata._as_uint8(prefix)
 
+    def __reduce__(self):
+        # the immutable mixin refuses the attribute assignments of the default unpickler
+        return (APLItem, (self.family, self.negation, self.address, self.prefix))
+
     def __str__(self):
         address = self.address
         if isinstance(address, bytes):
